@@ -9,7 +9,7 @@ import (
 )
 
 // C20: Clone returns an equal, fully independent copy.
-// opcode 2001: desc payload padsize;  2002: desc payload padsize [pre-ops] (Set/Del calls applied before Clone);  2003: xwire (the packet Unmarshal makes of it).  Observable: the clone, and for CSRC / each extension value /
+// opcode 2004: xwire1 xwire2 (the packet a receiver holds after decoding both);  2001: desc payload padsize;  2002: desc payload padsize [pre-ops] (Set/Del calls applied before Clone);  2003: xwire (the packet Unmarshal makes of it).  Observable: the clone, and for CSRC / each extension value /
 // payload whether the clone's slice is disjoint from the original's memory (1) or shares it (0).
 
 func u32Overlap(a, b []uint32) bool {
@@ -86,6 +86,25 @@ func runCloneFromWire(wire []byte) Outcome {
 	})
 }
 
+// runCloneOfReused clones a receiver with a past: it decoded wire w1, then wire w2 (a list that was
+// emptied keeps its capacity, a CSRC slice that shrank keeps its tail)
+func runCloneOfReused(w1, w2 []byte) Outcome {
+	var o Outcome
+	mk := func() *rtp.Packet {
+		p := &rtp.Packet{}
+		if p.Unmarshal(append([]byte{}, w1...)) != nil || p.Unmarshal(append([]byte{}, w2...)) != nil {
+			return nil
+		}
+		return p
+	}
+	if mk() == nil {
+		o.Impl = T(97, Unit)
+		return o
+	}
+	o.Tags = []string{"from a reused receiver"}
+	return runCloneOf(o, mk)
+}
+
 func runCloneOf(o Outcome, mk func() *rtp.Packet) Outcome {
 	orig := mk()
 	var cl *rtp.Packet
@@ -139,7 +158,7 @@ func runCloneOf(o Outcome, mk func() *rtp.Packet) Outcome {
 		muts = append(muts, mut{fmt.Sprintf("DelExtension(%d)", id), func(p *rtp.Packet) { _ = p.DelExtension(id) }})
 		muts = append(muts, mut{fmt.Sprintf("SetExtension(%d, new value)", id), func(p *rtp.Packet) { _ = p.SetExtension(id, []byte{0x5A}) }})
 	}
-	if orig.Extension && (orig.ExtensionProfile == 0xBEDE || isTwoByte(orig.ExtensionProfile)) {
+	if !orig.Extension || orig.ExtensionProfile == 0xBEDE || isTwoByte(orig.ExtensionProfile) {
 		muts = append(muts, mut{"SetExtension(new id)", func(p *rtp.Packet) {
 			for id := uint8(1); id <= 14; id++ {
 				if p.GetExtension(id) == nil {
@@ -171,7 +190,7 @@ func runCloneOf(o Outcome, mk func() *rtp.Packet) Outcome {
 				_ = who
 			}
 			// then the other side adds an extension of its own: the first side must not see it
-			if other.Extension && (other.ExtensionProfile == 0xBEDE || isTwoByte(other.ExtensionProfile)) {
+			if !other.Extension || other.ExtensionProfile == 0xBEDE || isTwoByte(other.ExtensionProfile) {
 				afterT := snapshotPacket(target)
 				for id := uint8(14); id >= 1; id-- {
 					if other.GetExtension(id) == nil {
@@ -191,7 +210,7 @@ func runCloneOf(o Outcome, mk func() *rtp.Packet) Outcome {
 func init() {
 	register(&Prop{
 		ID:       "C20",
-		Rule:     "well-formed packets as in C01 with every field populated, one in eight taken from Unmarshal of a wire image (plus fixed wires with one-byte id-0 elements, in-block padding, legacy and empty blocks), with and without a payload slice (nil), a third of the extension-carrying headers with a Set/Del history before the clone (element list emptied or shrunk); observable = the clone and, per slice, whether its memory is disjoint from the original's; oracle = equality incl. padding size and PayloadOffset, then every single mutation (payload bytes, each CSRC entry, each extension value byte, SetExtension / DelExtension of each id, SetExtension of a new id) applied to the original and to the clone, each followed by a SetExtension on the other side; non-trivial = has CSRCs, an extension or a payload",
+		Rule:     "well-formed packets as in C01 with every field populated, one in eight taken from Unmarshal of a wire image, one in ten from a receiver that decoded two wire images in a row (plus fixed wires with one-byte id-0 elements, in-block padding, legacy and empty blocks), with and without a payload slice (nil), a third of the extension-carrying headers with a Set/Del history before the clone (element list emptied or shrunk); observable = the clone and, per slice, whether its memory is disjoint from the original's; oracle = equality incl. padding size and PayloadOffset, then every single mutation (payload bytes, each CSRC entry, each extension value byte, SetExtension / DelExtension of each id, SetExtension of a new id) applied to the original and to the clone, each followed by a SetExtension on the other side; non-trivial = has CSRCs, an extension or a payload",
 		Quick:    3000,
 		Thorough: 100000,
 		Gen: func(r *RNG, tier string, n int, emit func(op int, toks ...Tok)) {
@@ -210,10 +229,18 @@ func init() {
 				emit(2003, TBytes(w))
 			}
 			emit(2003, TBytes([]byte{0xA0, 0x60, 0, 1, 0, 0, 0, 2, 0, 0, 0, 3, 0x99, 0, 0, 3}))
+			// a reused receiver: a packet with extensions and CSRCs, then one without
+			emit(2004, TBytes(usedReceiverWires[0]), TBytes(usedReceiverWires[2]))
+			emit(2004, TBytes(usedReceiverWires[1]), TBytes(append(append([]byte{}, usedReceiverWires[2]...), 0x42, 0x43)))
+			emit(2004, TBytes(usedReceiverWires[0]), TBytes(usedReceiverWires[1]))
 			for i := 0; i < n; i++ {
 				c := r.Fork(uint64(i))
 				if c.Intn(8) == 0 {
 					emit(2003, TBytes(wfWire(c)))
+					continue
+				}
+				if c.Intn(10) == 0 {
+					emit(2004, TBytes(wfWire(c)), TBytes(wfWire(c)))
 					continue
 				}
 				d, pl, pad := genWfPacket(c)
@@ -240,6 +267,9 @@ func init() {
 		Run: func(op int, toks []Tok) Outcome {
 			if op == 2003 {
 				return runCloneFromWire(tokBytes(toks[0]))
+			}
+			if op == 2004 {
+				return runCloneOfReused(tokBytes(toks[0]), tokBytes(toks[1]))
 			}
 			var pre []Tok
 			if op == 2002 {
